@@ -431,7 +431,7 @@ fn message(b: &Built, q: &[u8], ty: u8, code: u8, mode: ExtMode, ext: &[u8], rng
     let (len_attr, body) = icmp_body(b.cfg.v6, q, mode, ext);
     let icmp = icmp_message(&b.cfg, ty, code, len_attr, &body, from);
     let bytes = deliver(&b.cfg, &icmp, from, rng);
-    let off = if b.cfg.v6 { 0 } else { 20 };
+    let off = if b.cfg.v6 { 0 } else { usize::from(bytes[0] & 0xf) * 4 };
     let ext_off = if mode == ExtMode::None { None } else { Some(off + 8 + body.len() - ext.len()) };
     Msg { bytes, from, icmp: off, ext: ext_off }
 }
